@@ -97,14 +97,16 @@ fn bare_to_dim_type(
                         let opt_q: Option<TypeQualifier> =
                             variable_info.expression_type.opt_qualifier();
                         let existing_q = opt_q.expect("Should be qualified");
-                        if existing_q == q {
-                            debug_assert!(found.is_none());
+                        // the nearest declaration wins, e.g. the array of this
+                        // subprogram over a shared one of the same name
+                        if existing_q == q && found.is_none() {
                             found = Some((built_in_style, variable_info));
                         }
                     }
                     BuiltInStyle::Extended => {
-                        debug_assert!(found.is_none());
-                        found = Some((built_in_style, variable_info));
+                        if found.is_none() {
+                            found = Some((built_in_style, variable_info));
+                        }
                     }
                 }
             }
